@@ -82,6 +82,7 @@ type poolOut struct {
 	wallUS    int64
 	infraErrs []string
 	restarts  int
+	cancel    func()
 }
 
 var runMarkRe = regexp.MustCompile(`^VERIF-RUN (\d+)$`)
@@ -150,7 +151,7 @@ func runWorker(ctx context.Context, cfg *poolCfg, out *poolOut, wid int, start, 
 	next := start
 	end := start + runs
 	tEnd := time.Now().Add(cfg.deadline)
-	for next < end && time.Now().Before(tEnd) {
+	for next < end && time.Now().Before(tEnd) && ctx.Err() == nil {
 		left := time.Until(tEnd)
 		last, exitErr, crash := spawn(ctx, cfg, out, wid, next, end-next, left, nil)
 		out.mu.Lock()
@@ -254,6 +255,9 @@ func spawn(ctx context.Context, cfg *poolCfg, out *poolOut, wid int, start, runs
 					curMu.Unlock()
 					out.mu.Lock()
 					out.found = append(out.found, found{Idx: idx, V: Violation{Kind: "race", Site: raceSite(r), Detail: "data race reported by the Go race detector on a deterministic schedule"}, Report: r})
+					if len(out.found) >= 60 && out.cancel != nil {
+						out.cancel()
+					}
 					out.mu.Unlock()
 					continue
 				}
@@ -329,6 +333,9 @@ loop:
 	}
 	if exitErr == nil {
 		return last, nil, nil
+	}
+	if ctx.Err() != nil {
+		return last, nil, nil // batch cancelled: not a finding
 	}
 	code := -1
 	if ee, ok := exitErr.(*exec.ExitError); ok {
@@ -420,6 +427,9 @@ func (o *poolOut) absorb(r *RunResult, cfg *poolCfg) {
 	}
 	if r.Viol != nil {
 		o.found = append(o.found, found{Idx: r.Idx, V: *r.Viol, Tape: r.Tape, Trace: r.Trace})
+		if len(o.found) >= 60 && o.cancel != nil {
+			o.cancel() // enough to report; do not burn the budget on a tree that is plainly broken
+		}
 	} else if len(r.Trace) > 0 && len(o.samples) < 3 {
 		c := *r
 		c.Tape = nil
@@ -432,6 +442,7 @@ func runPool(cfg *poolCfg) *poolOut {
 	out := &poolOut{stats: map[string]int64{}, sigs: map[uint64]struct{}{}, sigsNT: map[uint64]struct{}{}}
 	ctx, cancel := context.WithCancel(context.Background())
 	defer cancel()
+	out.cancel = cancel
 	var wg sync.WaitGroup
 	const stride = uint64(1) << 32
 	for w := 0; w < cfg.workers; w++ {
